@@ -291,6 +291,46 @@ def judge(ctx, traces, verdicts, origin_default):
 
 
 # ------------------------------------------------------------------ main
+def apalache_lemma(ctx):
+    """The covering lemma for all integers (CellsLemma.tla, Apalache, length 0): two coordinates closer than the cell size have
+    keys at most one cell apart, for sizes 2 and 5.  The key arithmetic is the text of Cells.tla (compared here), which the
+    key-grid leg compares with the real add_cell.  A plausible wrong negative branch (BrokenLemma) must be refuted."""
+    import re, subprocess, shutil, time
+    norm = lambda t: re.sub(r"\s+", " ", t).replace("Size", "s").replace("Key1(m, s)", "Key1(m)").strip()
+    def body(path, name):
+        m = re.search(r"^" + name + r"\([^)]*\)\s*==(.*?)(?:\\\*.*)?$", open(path).read(), re.M)
+        return norm(m.group(1)) if m else None
+    a, b = os.path.join(core.SPEC, "Cells.tla"), os.path.join(core.SPEC, "CellsLemma.tla")
+    for op in ("Trunc", "Key1"):
+        if body(a, op) is None or body(a, op) != body(b, op):
+            raise core.MachineryError(f"CellsLemma.tla and Cells.tla define {op} differently: {body(a, op)!r} / {body(b, op)!r}")
+    exe = shutil.which("apalache-mc")
+    if exe is None:
+        ctx.extra["apalache_covering_lemma"] = "apalache-mc not found: not run"
+        return
+    out = {}
+    for inv, want in (("Lemma", True), ("Aligned", True), ("BrokenLemma", False)):
+        od = os.path.join(ctx.work, f"apa-{inv}")
+        t0 = time.time()
+        try:
+            p = subprocess.run([exe, "check", f"--inv={inv}", "--length=0", f"--out-dir={od}", "CellsLemma.tla"], cwd=core.SPEC,
+                               capture_output=True, text=True, timeout=600)
+        except subprocess.TimeoutExpired:
+            raise core.MachineryError(f"apalache-mc timed out on {inv}")
+        shutil.rmtree(od, ignore_errors=True)
+        ok = "EXITCODE: OK" in p.stdout
+        err = "EXITCODE: ERROR (12)" in p.stdout
+        if not ok and not err:
+            raise core.MachineryError(f"apalache-mc failed on {inv}: {p.stdout[-600:]} {p.stderr[-300:]}")
+        out[inv] = {"holds": ok, "wall_s": round(time.time() - t0, 1)}
+        if want and not ok:
+            ctx.violation({"invariant": "CoveringLemma:" + inv, "cause": "model"},
+                          f"CellsLemma.{inv} has a counterexample: coordinates within range whose cells are not adjacent", {"apalache": p.stdout[-1500:]})
+        if not want and ok:
+            raise core.MachineryError("self-test failed: Apalache does not refute BrokenLemma")
+    ctx.extra["apalache_covering_lemma"] = dict(out, scope="all integer coordinates (milli-A), cell sizes 2 and 5, one axis")
+
+
 def run(ctx):
     rng = random.Random(ctx.seed)
     ctx.rule = ("(M) all histories <= MaxOps of add/remove/move/place on 3 atoms over 10 lattice positions around "
@@ -303,6 +343,7 @@ def run(ctx):
     ctx.assumptions += ["coordinates are truncated to 0.001 A (keeping int(x) and sign exact); in traces 'in range' means "
                         "distance < cell size - 0.003 A on the truncated coordinates, so truncation cannot create a miss",
                         "an atom belongs to the structure from Residue.add_atom until Residue.remove_atom"]
+    apalache_lemma(ctx)
     maxops = 4 if ctx.quick else 5
     cfg = os.path.join(ctx.work, "mc.cfg")
     sizes = [2, 5]
